@@ -1,6 +1,7 @@
 package main
 
 import (
+	"bytes"
 	"encoding/json"
 	"fmt"
 	"os"
@@ -90,6 +91,22 @@ func main() {
 			}
 		}
 		engine.CleanScratch()
+	case "racepass":
+		// free-running pass of the same scenario bodies in a plain -race build (complementary to the
+		// controlled scheduler, whose hand-offs hide races from the detector)
+		engine.IsolateStdio()
+		n := 0
+		for _, sc := range c12All("thorough") {
+			for th := 1; th <= 16; th++ {
+				c := sc.Call
+				c.Threads = th
+				var buf bytes.Buffer
+				c.Run(&buf)
+				n++
+			}
+		}
+		engine.CleanScratch()
+		fmt.Fprintf(engine.ProtoOut(), "racepass runs=%d\n", n)
 	case "worker":
 		engine.IsolateStdio()
 		p := props[os.Args[2]]
